@@ -57,6 +57,9 @@ def run(res, replay=None):
                           (7, {'kind': 'beta', 'alpha': 1.75, 'scale_time': False})):
             cases.append({'spec': {'n_items': [['a', n_mm]], 'model': mdl, 'pop_sizes': {'a': {'0.0': rng.choice([0.5, 1.0, 2.0])}}},
                           'theta': rng.choice([0.25, 1.0]), 'max_mut': 2})
+    for j_, c in enumerate(cases):
+        if j_ % 2 == 1 and c['theta'] > 0:
+            c['pre_thetas'] = [0.5, 3.0]
     for c in cases:
         c['perm_items'] = [[rng.choice([1, 2, 3, 8, 9, 11, 16]) for _ in range(rng.randrange(1, 6))] for _ in range(6)] + [[1, 1, 8], [8, 8, 1], [2, 9, 9, 9]]
     outs = C.run_impl_parallel('mutation.py', [{'cases': [c]} for c in cases], timeout=1800)
